@@ -22,7 +22,7 @@ func (eng) Level() string    { return "exploration" }
 func (eng) Rule() string {
 	return "cases: PRNG schemas of 2..8 states whose After∪Require must-precede graph is acyclic (edges only towards earlier names), " +
 		"with long chains and non-adjacent constraints; 1-3 recording handler bindings (maps; one may use a StatePrefix) over all " +
-		"handler names; histories of 6-14 mutations over arbitrary subsets. Each history runs without vetoes, then once per negotiation " +
+		"handler names; histories of 6-14 mutations over arbitrary subsets; wide cases: 10-20 states with sparse Require/After relations, all added and then all removed in one mutation each. Each history runs without vetoes, then once per negotiation " +
 		"position (binding, handler name) that fired with a veto there. Per transition the handler log is judged: phase order, " +
 		"After/Require order inside each phase list, negotiation handlers see states-before, final handlers see the applied target, " +
 		"nothing after a veto, every Exit/Enter/self/AnyEnter negotiation handler of an unvetoed accepted transition exactly once in the all-names binding, finals exactly once per changed state per binding and never for canceled transitions. Evaluation = one " +
@@ -44,6 +44,13 @@ func (eng) Cases(seed uint64, tier string) []core.CaseDesc {
 		cs = append(cs, core.CaseDesc{ID: fmt.Sprintf("life/%05d", i), Kind: "life", Seed: seed*1000003 + uint64(i)})
 	}
 	cs = append(cs, core.CaseDesc{ID: "directed/after-nonadjacent", Kind: "directed", Seed: seed})
+	nw := 60
+	if tier == "thorough" {
+		nw = 6000
+	}
+	for i := 0; i < nw; i++ {
+		cs = append(cs, core.CaseDesc{ID: fmt.Sprintf("wide/%05d", i), Kind: "wide", Seed: seed*3000017 + uint64(i)})
+	}
 	return cs
 }
 
@@ -342,6 +349,26 @@ func (eng) Run(c core.CaseDesc, tier string) *core.CaseResult {
 			"A": {After: []string{"C"}}, "B": {}, "C": {}}}
 		run(res, spec, []binding{{names: rec.AllHandlerNames(spec.Names)}}, veto{},
 			[]gen.Op{{Kind: "add", States: []string{"A", "B", "C"}}})
+		return res
+	}
+	if c.Kind == "wide" {
+		// many states in one sorted list (the sort routines change behaviour with
+		// the length of their input): everything is added, then removed, at once
+		r := gen.NewRand(c.Seed, 55)
+		spec := gen.RandSchema(r, gen.SchemaOpts{MinStates: 10, MaxStates: 20, AcyclicOrder: true,
+			PRequire: r.Float64() * 0.08, PAfter: r.Float64() * 0.06})
+		all := rec.AllHandlerNames(gen.Sorted(spec.Names))
+		var hnames []string
+		for _, n := range all {
+			if rec.HandlerKind(n) != "pair" {
+				hnames = append(hnames, n)
+			}
+		}
+		order := append([]string(nil), spec.Names...)
+		r.Shuffle(len(order), func(i, j int) { order[i], order[j] = order[j], order[i] })
+		hist := []gen.Op{{Kind: "add", States: order}, {Kind: "remove", States: order}}
+		run(res, spec, []binding{{names: hnames}}, veto{}, hist)
+		res.Count("wide_sorted_lists", 2)
 		return res
 	}
 	r := gen.NewRand(c.Seed, 5)
